@@ -70,6 +70,7 @@ func (vfs *MemFS) Chdir(dir string) error {
 		return &fs.PathError{Op: op, Path: dir, Err: err}
 	}
 
+	verifYield(&c.mu, false)
 	c.mu.RLock()
 	defer c.mu.RUnlock()
 
@@ -334,6 +335,7 @@ func (vfs *MemFS) Link(oldname, newname string) error {
 		return &os.LinkError{Op: op, Old: oldname, New: newname, Err: nerr}
 	}
 
+	verifYield(&nParent.mu, true)
 	nParent.mu.Lock()
 	defer nParent.mu.Unlock()
 
@@ -351,6 +353,7 @@ func (vfs *MemFS) Link(oldname, newname string) error {
 		return &os.LinkError{Op: op, Old: oldname, New: newname, Err: err}
 	}
 
+	verifYield(&c.mu, true)
 	c.mu.Lock()
 	nParent.addChild(pi.Part(), c)
 
@@ -423,6 +426,7 @@ func (vfs *MemFS) Mkdir(name string, perm fs.FileMode) error {
 		return &fs.PathError{Op: op, Path: name, Err: err}
 	}
 
+	verifYield(&parent.mu, true)
 	parent.mu.Lock()
 	defer parent.mu.Unlock()
 
@@ -462,6 +466,7 @@ func (vfs *MemFS) MkdirAll(path string, perm fs.FileMode) error {
 		return &fs.PathError{Op: op, Path: pi.LeftPart(), Err: vfs.err.NotADirectory}
 	}
 
+	verifYield(&parent.mu, true)
 	parent.mu.Lock()
 	defer parent.mu.Unlock()
 
@@ -528,6 +533,7 @@ func (vfs *MemFS) OpenFile(name string, flag int, perm fs.FileMode) (avfs.File, 
 			return (*MemFile)(nil), &fs.PathError{Op: op, Path: name, Err: err}
 		}
 
+		verifYield(&parent.mu, true)
 		parent.mu.Lock()
 		defer parent.mu.Unlock()
 
@@ -554,6 +560,7 @@ func (vfs *MemFS) OpenFile(name string, flag int, perm fs.FileMode) (avfs.File, 
 
 	switch c := child.(type) {
 	case *fileNode:
+		verifYield(&c.mu, true)
 		c.mu.Lock()
 		defer c.mu.Unlock()
 
@@ -574,6 +581,7 @@ func (vfs *MemFS) OpenFile(name string, flag int, perm fs.FileMode) (avfs.File, 
 		}
 
 	case *dirNode:
+		verifYield(&c.mu, true)
 		c.mu.Lock()
 		defer c.mu.Unlock()
 
@@ -659,6 +667,7 @@ func (vfs *MemFS) Remove(name string) error {
 		return &fs.PathError{Op: op, Path: name, Err: err}
 	}
 
+	verifYield(&parent.mu, true)
 	parent.mu.Lock()
 	defer parent.mu.Unlock()
 
@@ -708,6 +717,7 @@ func (vfs *MemFS) RemoveAll(path string) error {
 		return &fs.PathError{Op: op, Path: path, Err: err}
 	}
 
+	verifYield(&parent.mu, true)
 	parent.mu.Lock()
 	defer parent.mu.Unlock()
 
@@ -729,6 +739,7 @@ func (vfs *MemFS) RemoveAll(path string) error {
 }
 
 func (vfs *MemFS) removeAll(parent *dirNode) error {
+	verifYield(&parent.mu, true)
 	parent.mu.Lock()
 	defer parent.mu.Unlock()
 
@@ -767,6 +778,7 @@ func (vfs *MemFS) Rename(oldpath, newpath string) error {
 		return &os.LinkError{Op: op, Old: oldpath, New: newpath, Err: nErr}
 	}
 
+	verifYield(&oParent.mu, true)
 	oParent.mu.Lock()
 	defer oParent.mu.Unlock()
 
@@ -775,6 +787,7 @@ func (vfs *MemFS) Rename(oldpath, newpath string) error {
 	}
 
 	if nParent != oParent {
+		verifYield(&nParent.mu, true)
 		nParent.mu.Lock()
 		defer nParent.mu.Unlock()
 
@@ -904,6 +917,7 @@ func (vfs *MemFS) Symlink(oldname, newname string) error {
 		return &os.LinkError{Op: op, Old: oldname, New: newname, Err: nerr}
 	}
 
+	verifYield(&parent.mu, true)
 	parent.mu.Lock()
 	defer parent.mu.Unlock()
 
@@ -971,6 +985,7 @@ func (vfs *MemFS) Truncate(name string, size int64) error {
 		return &fs.PathError{Op: op, Path: name, Err: vfs.err.InvalidArgument}
 	}
 
+	verifYield(&c.mu, true)
 	c.mu.Lock()
 	c.truncate(size)
 	c.mu.Unlock()
